@@ -3,9 +3,10 @@ import N0Verif.Model.XPath
   Model of `n0struct_findall.py`: `findall` (expression normalisation), `_findall`
   (recursive matcher) and `findfirst`.
 
-  The model follows the code with the repairs `fixes/C19-a.patch` (leading index on a list root)
-  and `fixes/C19-b.patch` (`'..'` looks its target up by xpath and no longer deletes from the
-  stack) applied.
+  The model follows the code with the repairs `fixes/C19-a.patch` (leading index on a list root),
+  `fixes/C19-b.patch` (`'..'` looks its target up by xpath and no longer deletes from the
+  stack) and `fixes/C19-c.patch` (a `text()` condition is no longer appended to the found xpath)
+  applied.
 
   `_findall` has **two mutable default arguments** (`found_xpath_list = []`,
   `parent_nodes_stack = {}`) and updates the list object it received *in place*
@@ -216,19 +217,16 @@ def stepUp (rest : List Str) (fl : FL) (ps : PS) : Out :=
     let o := rec target rest fl.dropLast ps
     ⟨o.res, fl, o.ps⟩
 
-/-- `[text()=v]` -/
-def stepText (node : Val) (tok : Str) (rest : List Str) (eq : Bool) (v : Str) (fl : FL) (ps : PS) : Out :=
+/-- `[text()=v]`: the condition only filters; the search continues in the same node with the
+**same** list object and a copy of the stack that registers the node under its own xpath -/
+def stepText (node : Val) (rest : List Str) (eq : Bool) (v : Str) (fl : FL) (ps : PS) : Out :=
   match node with
   | .str s =>
     if s.any (fun c => c.toNat ≥ 128) then ⟨.error .Unsupported, fl, ps⟩    -- `lower()` beyond ASCII
     else if (lower s == lower v) != eq then ⟨.ok Option.none, fl, ps⟩
     else
-      match fl.getLast? with
-      | Option.none => ⟨.error .IndexError, fl, ps⟩               -- `found_xpath_list[-1] += …` on []
-      | some l =>
-        let fl1 := setLast fl (l ++ tok)
-        let o := rec node rest fl1 (push ps fl1 node)
-        ⟨o.res, o.fl, ps⟩
+      let o := rec node rest fl (push ps fl node)
+      ⟨o.res, o.fl, ps⟩
   | _ => ⟨.error .AttributeError, fl, ps⟩                         -- `parent_node.lower()`
 
 /-- integer index -/
@@ -298,7 +296,7 @@ def step (node : Val) (toks : List Str) (fl : FL) (ps : PS) : Out :=
     match classify tok with
     | .up => stepUp rec re rest fl ps
     | .fail e => ⟨.error e, fl, ps⟩
-    | .text eq v => stepText rec node tok rest eq v fl ps
+    | .text eq v => stepText rec node rest eq v fl ps
     | .idx i => stepIdx rec re node rest i fl ps
     | .star => stepStar rec re node rest fl ps
     | .name n => stepName rec re node n rest fl ps
